@@ -36,7 +36,7 @@ func init() { register(c19{}) }
 func (c19) ID() string    { return "C19" }
 func (c19) Level() string { return "fault_enumeration" }
 func (c19) Rule() string {
-	return "one case = one seeded join tree (depth<=6, fan-out 1..5, joins of one, nested joins, distinct leaf pointers) or one real configuration error with 1..8 planted violations; per case EVERY cancellation position k in 0..n is enumerated for three consumers (range+break, raw callback returning false, iter.Pull+stop); distinct = distinct plan hash; non-trivial = at least 2 leaves and at least one join node (so that at least one cancellation lands between siblings)"
+	return "one case = one seeded join tree (depth<=6, fan-out 1..5, joins of one, nested joins, distinct leaf pointers) or one real configuration error with 1..8 planted violations; trees may contain the same error value or sub-tree twice; per case EVERY cancellation position k in 0..n is enumerated for three consumers (range+break, raw callback returning false, iter.Pull+stop), in 40% of the cases on ONE reused iterator value, plus re-entrant nested ranges over the same iterator value; for library errors the yielded errors must match the lines of Error() one by one; distinct = distinct plan hash; non-trivial = at least 2 leaves and at least one join node (so that at least one cancellation lands between siblings)"
 }
 func (c19) Budget(tier string) (int, time.Duration) {
 	if tier == "thorough" {
